@@ -180,4 +180,8 @@ def run(tier):
                         ck.violation(f"shape|{bad}|{items[i].kind}|{kc}|{'+'.join(feats)}", dict(input=srcs[i], backend=backend, item=t[:1200]))
     ck.extra["accepted_inputs"] = accepted
     ck.extra["inputs"] = len(srcs) * 2
+    if tier == "thorough":
+        from vlib import modeeq, cov
+        modeeq.audit(ck, g, 90)
+        cov.report(ck, "C17", srcs)
     return ck.finish()
